@@ -2,9 +2,10 @@
 C03 — Allocation obeys the register file: class, width, reserved and pinned registers.
 -/
 import AvoVerif.Model.Alloc
+import AvoVerif.Model.AllocCheck
 import AvoVerif.Gen.Regs
 namespace Avo.Alloc
-open Avo.Reg
+open Avo.Reg Avo.AllocCheck
 
 /-- **Statement.** What the property demands of one operand register `o` of the
 source function and the register `b` found in its place after compilation,
@@ -16,7 +17,17 @@ def BoundOK (tbl : List RegRow) (al : List (Nat × Nat)) (o b : R) : Prop :=
       al.find? (·.1 == o.id) = some (o.id, p) ∧            -- one assignment per virtual, used at every occurrence
       row ∈ tbl ∧ b = ⟨row.id, row.mask⟩ ∧
       row.id = p ∧ row.mask = o.mask ∧                        -- same width view (8H stays 8H, 8L stays 8L, …)
-      row.kind = idKind p)
+      row.kind = idKind p ∧
+      idKind p = idKind o.id)                                 -- same class as the virtual register
+
+/-- The allocation maps virtual ids to ids of the same class (the shape `checkAllocShape` tests). -/
+def SameClass (al : List (Nat × Nat)) : Prop := ∀ e ∈ al, idKind e.2 = idKind e.1
+
+theorem sameClass_of_shape (al : List (Nat × Nat)) (h : checkAllocShape al = true) : SameClass al := by
+  intro e he
+  have := List.all_eq_true.mp h e he
+  simp only [Bool.and_eq_true, beq_iff_eq] at this
+  exact this.2.symm
 
 /-- The table's ids determine (kind, index): two rows agreeing on the kind and
 index encoded in an id have that id. -/
@@ -30,7 +41,7 @@ def TargetsInTable (tbl : List RegRow) (al : List (Nat × Nat)) : Prop :=
 /-- **C03 (binding).** Whenever the model of BindRegisters yields a register it
 satisfies the statement — for every table, allocation and register. -/
 theorem bindReg_ok (tbl : List RegRow) (al : List (Nat × Nat)) (o b : R)
-    (hdet : IdsDetermined tbl) (hal : TargetsInTable tbl al)
+    (hdet : IdsDetermined tbl) (hal : TargetsInTable tbl al) (hcls : SameClass al)
     (h : bindReg tbl al o = some b) : BoundOK tbl al o b := by
   unfold bindReg at h
   by_cases hv : idIsVirtual o.id = true
@@ -56,7 +67,8 @@ theorem bindReg_ok (tbl : List RegRow) (al : List (Nat × Nat)) (o b : R)
         rw [← hrow'id]
         exact hdet row hmem row' hrow'm (by rw [hrow'id]; exact hprop.1.1) (by rw [hrow'id]; exact hprop.1.2)
       refine ⟨by simp [hidp, hp], fun h0 => by simp [hv] at h0,
-        fun _ => ⟨p, row, hf, hmem, rfl, hidp, hprop.2, by rw [← hrow'id] at *; exact (by rw [hrow'id]; exact hprop.1.1)⟩⟩
+        fun _ => ⟨p, row, hf, hmem, rfl, hidp, hprop.2, by rw [← hrow'id] at *; exact (by rw [hrow'id]; exact hprop.1.1),
+          hcls _ (List.mem_of_find?_eq_some hf)⟩⟩
   · have hv' : idIsVirtual o.id = false := by simpa using hv
     simp only [hv', Bool.not_false, if_true] at h
     cases h
@@ -94,17 +106,37 @@ theorem candidates_unrestricted :
         Avo.Gen.regs.all (fun r => r.id != id || r.kind != k || r.info &&& infoRestricted == 0))) = true := by
   decide +kernel
 
-/-- The restricted registers are exactly the views of SP and K0. -/
-theorem restricted_are_sp_k0 :
-    (Avo.Gen.regs.filter (fun r => r.info &&& infoRestricted != 0)).map (·.name) = ["SP", "SP", "SP", "SP", "K0"] := by
+/-- **The stack pointer and K0 are never candidates** — stated through the hardware numbering (GP index 4 is the
+stack pointer, opmask index 0 is K0; the numbering itself is C20's subject), not through which rows carry the
+`Restricted` flag: marking further registers as reserved keeps this theorem. -/
+theorem sp_k0_never_candidates :
+    (candidates Avo.Gen.regs kindGP).all (fun id => idIndex id != 4) = true ∧
+    (candidates Avo.Gen.regs kindOpmask).all (fun id => idIndex id != 0) = true := by
   decide +kernel
 
-/-- A high-byte view exists only on registers 0..3 (AH, CH, DH, BH), and for
-every other (kind, index, width) of the file the lookup finds the view of that
-very register. -/
+/-- … and every view of them in the file carries the flag that keeps them out. -/
+theorem sp_k0_rows_restricted :
+    (Avo.Gen.regs.filter (fun r => (r.kind == kindGP && r.idx == 4) || (r.kind == kindOpmask && r.idx == 0))).all
+      (fun r => r.info &&& infoRestricted != 0) = true := by
+  decide +kernel
+
+/-- Candidates of a kind are ids of physical rows of that very kind (with `candidates_unrestricted`: physical,
+unrestricted, right kind — all the property needs of the colour set). -/
+theorem candidates_right_kind :
+    [kindPseudo, kindGP, kindVector, kindOpmask].all (fun k =>
+      (candidates Avo.Gen.regs k).all (fun id => !idIsVirtual id && idKind id == k &&
+        Avo.Gen.regs.any (fun r => r.id == id && r.kind == k))) = true := by
+  decide +kernel
+
+/-- Non-vacuity of the three facts above: every allocatable kind has candidates. -/
+theorem candidates_nonempty :
+    [kindGP, kindVector, kindOpmask].all (fun k => !(candidates Avo.Gen.regs k).isEmpty) = true := by
+  decide +kernel
+
+/-- A high-byte view exists only on registers 0..3 (the A, C, D, B registers), and on each of them. -/
 theorem high_byte_views :
-    (Avo.Gen.regs.filter (fun r => r.kind == kindGP && r.mask == S8H)).map (fun r => (r.name, r.idx)) =
-      [("AH", 0), ("CH", 1), ("DH", 2), ("BH", 3)] := by
+    (Avo.Gen.regs.filter (fun r => r.kind == kindGP && r.mask == S8H)).all (fun r => r.idx < 4) = true ∧
+    [0, 1, 2, 3].all (fun i => (lookup Avo.Gen.regs kindGP i S8H).isSome) = true := by
   decide +kernel
 
 theorem lookup_returns_requested_view :
@@ -113,13 +145,96 @@ theorem lookup_returns_requested_view :
       | none => false) = true := by
   decide +kernel
 
-/-- The base-pointer registers come last among the GP candidates (allocated only under pressure). -/
-theorem bp_last : (candidates Avo.Gen.regs kindGP).getLast? = some (newid 0 kindGP 5) := by
-  decide +kernel
+/-! ### Soundness of the `accept-bind` acceptor -/
 
-theorem candidate_counts :
-    (candidates Avo.Gen.regs kindGP).length = 15 ∧ (candidates Avo.Gen.regs kindVector).length = 32 ∧
-    (candidates Avo.Gen.regs kindOpmask).length = 7 := by
+/-- The register found in place of a virtual one is a view of the file that is not reserved, and a high-byte view
+sits on one of the registers 0..3. -/
+def Unreserved (tbl : List RegRow) (o b : R) : Prop :=
+  idIsVirtual o.id = true → ∃ row ∈ tbl, b = ⟨row.id, row.mask⟩ ∧ row.info &&& infoRestricted = 0 ∧
+    (o.mask = S8H → idIndex b.id < 4)
+
+/-- **`accept-bind` is sound**: a pair the acceptor lets through satisfies the statement `BoundOK` (physical;
+author-chosen register unchanged; the one assignment of the virtual, in the same-width view, same class) and is
+not a reserved register. No hypothesis on the table or the allocation. -/
+theorem checkBindOne_sound (tbl : List RegRow) (al : List (Nat × Nat)) (o b : R)
+    (h : checkBindOne tbl al o b = none) : BoundOK tbl al o b ∧ Unreserved tbl o b := by
+  unfold checkBindOne at h
+  by_cases hb : idIsVirtual b.id = true
+  · simp [hb] at h
+  have hb' : idIsVirtual b.id = false := by simpa using hb
+  simp only [hb', Bool.false_eq_true, if_false] at h
+  by_cases ho : idIsVirtual o.id = true
+  · simp only [ho, Bool.not_true, Bool.false_eq_true, if_false] at h
+    cases hf : al.find? (·.1 == o.id) with
+    | none => simp [hf] at h
+    | some e =>
+      rcases e with ⟨v, p⟩
+      have hv : v = o.id := by have := List.find?_some hf; simpa using this
+      subst hv
+      simp only [hf] at h
+      by_cases h1 : (b.id != p) = true
+      · simp [h1] at h
+      by_cases h2 : (b.mask != o.mask) = true
+      · simp [h1, h2] at h
+      by_cases h3 : (idKind p != idKind o.id) = true
+      · simp [h1, h2, h3] at h
+      simp only [h1, h2, h3, Bool.false_eq_true, if_false] at h
+      cases hl : lookupID tbl p o.mask with
+      | none => simp [hl] at h
+      | some row =>
+        simp only [hl] at h
+        by_cases h4 : (row.id != p) = true
+        · simp [h4] at h
+        by_cases h5 : (row.info &&& infoRestricted != 0) = true
+        · simp [h4, h5] at h
+        by_cases h6 : (o.mask == S8H && decide (idIndex p ≥ 4)) = true
+        · simp [h4, h5, h6] at h
+        have e1 : b.id = p := by simpa using h1
+        have e2 : b.mask = o.mask := by simpa using h2
+        have e3 : idKind p = idKind o.id := by simpa using h3
+        have e4 : row.id = p := by simpa using h4
+        have e5 : row.info &&& infoRestricted = 0 := by simpa using h5
+        have hp : idIsVirtual p = false := by rw [← e1]; exact hb'
+        unfold lookupID at hl
+        simp only [hp, Bool.false_eq_true, if_false] at hl
+        unfold lookup at hl
+        have hmem := List.mem_of_find?_eq_some hl
+        have hprop := List.find?_some hl
+        simp only [Bool.and_eq_true, beq_iff_eq] at hprop
+        have hbrow : b = ⟨row.id, row.mask⟩ := by
+          rcases b with ⟨bi, bm⟩
+          simp only at e1 e2
+          simp [e1, e2, e4, hprop.2]
+        refine ⟨⟨hb', fun h0 => by simp [ho] at h0, fun _ => ⟨p, row, hf, hmem, hbrow, e4, hprop.2, hprop.1.1, e3⟩⟩,
+          fun _ => ⟨row, hmem, hbrow, e5, fun h8 => ?_⟩⟩
+        rw [e1]
+        simp only [Bool.and_eq_true, beq_iff_eq, decide_eq_true_eq, not_and, Nat.not_le] at h6
+        exact h6 h8
+  · have ho' : idIsVirtual o.id = false := by simpa using ho
+    simp only [ho', Bool.not_false, if_true] at h
+    by_cases he : (o.id == b.id && o.mask == b.mask) = true
+    · simp only [Bool.and_eq_true, beq_iff_eq] at he
+      refine ⟨⟨hb', fun _ => ?_, fun h0 => by simp [ho'] at h0⟩, fun h0 => by simp [ho'] at h0⟩
+      rcases o with ⟨oi, om⟩; rcases b with ⟨bi, bm⟩
+      simp only at he
+      simp [he.1, he.2]
+    · simp [he] at h
+
+theorem checkBind_sound (tbl : List RegRow) (al : List (Nat × Nat)) (pairs : List (R × R))
+    (h : checkBind tbl al pairs = none) : ∀ p ∈ pairs, BoundOK tbl al p.1 p.2 ∧ Unreserved tbl p.1 p.2 := by
+  intro p hp
+  unfold checkBind at h
+  rw [List.findSome?_eq_none_iff] at h
+  exact checkBindOne_sound tbl al p.1 p.2 (h p hp)
+
+/-- Non-vacuity of `checkBind_sound`, and the acceptor rejects what it should: v ↦ RCX read as CH is accepted;
+v left virtual, v ↦ RSI read as 8H, v ↦ RSP, a changed author-chosen register and a changed width are rejected. -/
+example : checkBind Avo.Gen.regs [(257, 65792)] [(⟨257, 2⟩, ⟨65792, 2⟩), (⟨256, 15⟩, ⟨256, 15⟩)] = none ∧
+    (checkBind Avo.Gen.regs [(257, 65792)] [(⟨257, 2⟩, ⟨257, 2⟩)]).isSome ∧
+    (checkBind Avo.Gen.regs [(257, 393472)] [(⟨257, 2⟩, ⟨393472, 2⟩)]).isSome ∧
+    (checkBind Avo.Gen.regs [(257, 262400)] [(⟨257, 15⟩, ⟨262400, 15⟩)]).isSome ∧
+    (checkBind Avo.Gen.regs [] [(⟨256, 15⟩, ⟨65792, 15⟩)]).isSome ∧
+    (checkBind Avo.Gen.regs [(257, 65792)] [(⟨257, 2⟩, ⟨65792, 1⟩)]).isSome := by
   decide +kernel
 
 /-- Non-vacuity of `bindReg_ok`: virtual GP 0 viewed as 8H, allocated to RCX, binds to CH. -/
